@@ -18,6 +18,13 @@ def fnv1a(bs):
     return h or 2166136261
 
 
+def raw_fnv(bs):
+    h = 2166136261
+    for c in bs:
+        h = ((h ^ c) * 16777619) & 0xffffffff
+    return h
+
+
 def hx(bs):
     return bytes(bs).hex() if len(bs) else '-'
 
@@ -56,6 +63,9 @@ def run(ctx):
     # ---- names -> runtime hash
     alphabet = b'abcdefghijklmnopqrstuvwxyzABCDEFGHIJKLMNOPQRSTUVWXYZ_0123456789'
     names = [b'', b'a', b'Monster', b'MyGame.Example.Monster', b'X.Y', b'\xc3\xa9t\xc3\xa9.T']
+    # corpus: qualified names whose raw FNV-1a-32 is exactly 0 (must be remapped to hash("")); verified here, not assumed
+    ZERO_NAMES = [n for n in (b'qzs0UD', b'sXbssr', b'Game.Data.Tb11VcD') if raw_fnv(n) == 0]
+    names += ZERO_NAMES
     nnames = 3000 if ctx.thorough else 400
     for _ in range(nnames):
         ln = rng.choice([1, 2, 3, 7, 8, 9, 15, 16, 17, 31, 32, 33, 63, 64, rng.randint(1, 64)])
@@ -207,6 +217,13 @@ def run(ctx):
     for si in range(nsch):
         decls, want = [], []
         used = set()
+        if si == 0:
+            for zn in ZERO_NAMES:
+                parts = zn.decode().split('.')
+                scope, name = parts[:-1], parts[-1]
+                used.add(zn.decode())
+                decls.append('namespace %s;\ntable %s { x:int; }\n' % ('.'.join(scope), name) if scope else 'namespace;\ntable %s { x:int; }\n' % name)
+                want.append((scope, name))
         for ti in range(40):
             depth = rng.choice([0, 0, 1, 2, 3])
             scope = [''.join(chr(rng.choice(b'abcdefghijklmnopqrstuvwxyzABCDEFGHIJKLMNOPQRSTUVWXYZ')) for _ in range(rng.randint(1, 9))) for _ in range(depth)]
